@@ -158,7 +158,7 @@ pub fn builtin_is_even(x: f64) -> bool {
 #[builtin]
 #[allow(clippy::float_cmp)]
 pub fn builtin_is_odd(x: f64) -> bool {
-	builtin_round(x) % 2.0 == 1.0
+	builtin_round(x) % 2.0 != 0.0
 }
 
 #[builtin]
